@@ -5,6 +5,7 @@ ROOT="$(cd "$(dirname "$0")" && pwd)"
 export CARGO_NET_OFFLINE=true
 cd "$ROOT/sim"
 cargo build --release --offline 2>&1 | tail -3
+cargo build --profile relarith --offline 2>&1 | tail -1
 # Lane M: build Miri's sysroot and the workload once so that checks do not pay for it.
 # Failure here is not fatal: the checks report the Miri lane as unavailable in their evidence.
 cd "$ROOT/miri"
